@@ -100,7 +100,9 @@ def judge(ctx, scheme, kind, res, valid, wit, optional=False, produced=False, de
     ctx.count("cand:%s:%s" % (scheme, kind))
     if res[0] == "exc" and not isinstance(res[1], ValueError):
         ctx.count("lib_raised_other:" + scheme)
-        ctx.check(False, "exc:%s:verify-raised-%s" % (ks, type(res[1]).__name__),
+        from vf.ctx import innermost_lib_frame
+        fr = innermost_lib_frame(res[1])
+        ctx.check(False, "exc:%s:verify-raised-%s:%s" % (ks, type(res[1]).__name__, fr[1] if fr else "outside-library"),
                   "verify() raised something other than ValueError on a candidate signature",
                   lambda: dict(_w(wit), candidate=kind, got=repr(res[1])[:200], model_valid=valid))
         return False
@@ -137,7 +139,9 @@ def sign_failed(ctx, scheme, res, wit):
     if res[0] == "ok" and isinstance(res[1], bytes):
         return False
     if res[0] == "exc":
-        ctx.check(False, "exc:%s:sign-raised-%s" % (scheme, type(res[1]).__name__),
+        from vf.ctx import innermost_lib_frame
+        fr = innermost_lib_frame(res[1])
+        ctx.check(False, "exc:%s:sign-raised-%s:%s" % (scheme, type(res[1]).__name__, fr[1] if fr else "outside-library"),
                   "sign() raised on an admissible (key, hash) combination",
                   lambda: dict(_w(wit), got=repr(res[1])[:200]))
     else:
